@@ -93,6 +93,7 @@ impl<'a> Oracle<'a> {
             "C13" => self.c13(&toks),
             "C06" => self.c06(&toks),
             "C08" => self.c08(&toks),
+            "C09" => self.c09(&toks),
             "C17" => self.c17(&toks),
             _ => "SKIP".to_string(),
         }));
@@ -146,6 +147,13 @@ impl<'a> Oracle<'a> {
                         "OK".to_string()
                     }
                     Err(v) => fail(format!("{} #{} written {:?}: {:?} is refused ({})", ty, i, text, ctx, v)),
+                }
+            }
+            ["READ", h] => {
+                let s = match unhex(h) { Some(s) => s, None => return "SKIP".to_string() };
+                match read_events(t, &s) {
+                    Ok(evs) => match self.roundtrip_history(&evs) { Ok(_) => "OK".to_string(), Err(m) => fail(format!("accepted string {:?}: {}", s, m)) },
+                    Err(_) => "SKIP".to_string(),
                 }
             }
             ["KTXT", k] => {
@@ -483,6 +491,87 @@ impl<'a> Oracle<'a> {
                     if bonds != 2 * ((natoms - comps) + pairs) { return fail(format!("a successful traversal reports {} tree bonds and {} ring closures for {} half-bonds", natoms - comps, pairs, bonds)) }
                 }
                 "OK".to_string()
+            }
+            _ => "SKIP".to_string(),
+        }
+    }
+}
+
+fn norm_ev(e: &Ev) -> Ev {
+    match e {
+        Ev::Root(k) => Ev::Root(norm_kind_s(k)),
+        Ev::Extend(b, k) => Ev::Extend(*b, norm_kind_s(k)),
+        x => x.clone(),
+    }
+}
+
+fn drive_follower<F: purr::walk::Follower>(f: &mut F, events: &[Ev]) -> Option<()> {
+    for e in events {
+        match e {
+            Ev::Root(k) => f.root(parse_kind(k)?),
+            Ev::Extend(b, k) => f.extend(bond_kind_at(*b)?, parse_kind(k)?),
+            Ev::Join(b, r) => f.join(bond_kind_at(*b)?, rnum_at(*r)?),
+            Ev::Pop(d) => f.pop(*d),
+        }
+    }
+    Some(())
+}
+
+impl<'a> Oracle<'a> {
+    /// write a conformant history, read the text back, compare histories and follower results
+    fn roundtrip_history(&self, evs: &[Ev]) -> Result<String, String> {
+        let t = self.t;
+        let mut w = purr::write::Writer::new();
+        if catch_unwind(AssertUnwindSafe(|| drive_follower(&mut w, evs))).is_err() {
+            return Err(format!("the writer panics on a conformant history at {}", imp::last_panic()))
+        }
+        let text = w.write();
+        let got = match read_events(t, &text) {
+            Ok(g) => g,
+            Err(v) => return Err(format!("writer output {:?} is refused by the reader ({})", text, v)),
+        };
+        let want: Vec<Ev> = evs.iter().map(norm_ev).collect();
+        if got != want {
+            let i = got.iter().zip(want.iter()).position(|(a, b)| a != b).unwrap_or(got.len().min(want.len()));
+            return Err(format!("writer output {:?} replays event #{} as {} instead of {} ({} vs {} events)", text, i,
+                got.get(i).map(|e| e.s()).unwrap_or_default(), want.get(i).map(|e| e.s()).unwrap_or_default(), got.len(), want.len()))
+        }
+        // the builder driven directly with the history vs through the text (up to the shorthands)
+        let mut b1 = purr::graph::Builder::new();
+        let r1 = catch_unwind(AssertUnwindSafe(|| drive_follower(&mut b1, &want)));
+        let mut b2 = purr::graph::Builder::new();
+        let r2 = catch_unwind(AssertUnwindSafe(|| read(&text, &mut b2, None)));
+        if r1.is_err() || r2.is_err() { return Err(format!("the builder panics at {}", imp::last_panic())) }
+        let g1 = imp::build_s(t, catch_unwind(AssertUnwindSafe(|| b1.build())));
+        let g2 = imp::build_s(t, catch_unwind(AssertUnwindSafe(|| b2.build())));
+        if g1 != g2 { return Err(format!("the builder reaches {} directly and {} through the text {:?}", g1, g2, text)) }
+        // re-writing what was read reproduces the text character for character
+        let mut w2 = purr::write::Writer::new();
+        let _ = read(&text, &mut w2, None);
+        let text2 = w2.write();
+        if text2 != text { return Err(format!("re-writing {:?} gives {:?}", text, text2)) }
+        Ok(text)
+    }
+
+    // ---------------- C09: writer and reader are mutually inverse on event histories ----------------
+    fn c09(&mut self, toks: &[&str]) -> String {
+        match toks {
+            ["EVS", rest @ ..] => {
+                let evs: Option<Vec<Ev>> = if rest.len() == 1 && rest[0] == "-" { Some(vec![]) } else { rest.iter().map(|x| Ev::parse(x)).collect() };
+                let evs = match evs { Some(e) => e, None => return "SKIP".to_string() };
+                if evs.is_empty() || imp::proto_violation(&evs).is_some() { return "SKIP".to_string() }
+                match self.roundtrip_history(&evs) { Ok(_) => "OK".to_string(), Err(m) => fail(m) }
+            }
+            ["READ", h] => {
+                let s = match unhex(h) { Some(s) => s, None => return "SKIP".to_string() };
+                match read_events(self.t, &s) {
+                    Ok(evs) => match self.roundtrip_history(&evs) { Ok(_) => "OK".to_string(), Err(m) => fail(format!("accepted string {:?}: {}", s, m)) },
+                    Err(_) => "SKIP".to_string(),
+                }
+            }
+            ["KTXT", k] => {
+                let evs = vec![Ev::Root(k.to_string())];
+                match self.roundtrip_history(&evs) { Ok(_) => "OK".to_string(), Err(m) => fail(m) }
             }
             _ => "SKIP".to_string(),
         }
